@@ -113,6 +113,9 @@ func main() {
 			os.Exit(2)
 		}
 		a := absint.New(p)
+		nApp := 0
+		a.OnAppend = func(f *ssa.Function, site ssa.Instruction, st *absint.State, dst *absint.Slice, src absint.Term) { nApp++ }
+		defer func() { fmt.Println("append hook calls:", nApp) }()
 		t1 := time.Now()
 		obls, rets := a.DefaultEntry(fn)
 		fmt.Printf("analysed %s in %.2fs: %d obligations, %d return states\n", fn, time.Since(t1).Seconds(), len(obls), len(rets))
